@@ -83,6 +83,7 @@ def case_strategy(draw):
         "emit": emit,
         "recursive": draw(st.booleans()),
         "sqlsub": emit.startswith("sqlalchemy") and draw(st.booleans()),
+        "emit_as_list": draw(st.booleans()),  # the CLI always passes a list
         "list": lst if chosen else "none",
         "chosen": chosen,
     }
@@ -131,7 +132,7 @@ def run_exmod(case, pkg, outdir, dry):
     try:
         with core.quiet():
             cdd.compound.exmod.exmod(
-                emit_name=case["emit"], module=pkg, blacklist=chosen if case["list"] == "blacklist" else [], whitelist=chosen if case["list"] == "whitelist" else [],
+                emit_name=[case["emit"]] if case.get("emit_as_list") else case["emit"], module=pkg, blacklist=chosen if case["list"] == "blacklist" else [], whitelist=chosen if case["list"] == "whitelist" else [],
                 output_directory=outdir, target_module_name="gold", mock_imports=False, emit_sqlalchemy_submodule=case["sqlsub"], extra_modules=None,
                 no_word_wrap=None, recursive=case["recursive"], dry_run=dry,
             )
@@ -165,6 +166,7 @@ def one(r, case):
         r.label("sqlalchemy-submodule")
     if case["tree"].get("helpers"):
         r.label("module-with-unexported-helper")
+    r.label("emit-name:list" if case.get("emit_as_list") else "emit-name:str")
     _counter[0] += 1
     root = tempfile.mkdtemp(prefix="c20_", dir="/dev/shm" if os.path.isdir("/dev/shm") else None)
     pkg = "vq%d_%d" % (os.getpid(), _counter[0])
